@@ -278,12 +278,6 @@ def rollupKeysOf (ms : List Mapping) : List Bytes :=
   | [] => []
   | m :: _ => (m.kv.filter (·.kb)).map (·.key)
 
-/-- all keys of one file agree on whether they carry a unit -/
-def uniformUnits (ms : List Mapping) : Bool :=
-  match ms with
-  | [] => true
-  | m :: _ => ms.all fun m' => m'.kv.map (·.kb) == m.kv.map (·.kb)
-
 /-! ### mappings that do NOT all print the same key list (no kernel does this within one read of
     the file: `show_smap` prints `Size`, the `__show_smap` block, `THPeligible`, `ProtectionKey`
     — a per-system, not per-mapping, condition — and `VmFlags` for every vma; the harness
@@ -375,5 +369,87 @@ def pssListed (fine : List Nat) : Nat := (fine.map (· / pssUnit)).sum
 
 /-- `Pss:` of the roll-up (the sum is truncated once) -/
 def pssRolled (fine : List Nat) : Nat := fine.sum / pssUnit
+
+/-! ### ONE process, BOTH files: the kernel's fine-grained PSS
+
+  `smaps_account` adds every page's share to `mss->pss` in units of 2⁻¹² byte (`PSS_SHIFT`).
+  `/proc/pid/smaps` starts a fresh `mss` for every mapping and prints `Pss: mss->pss >> 22` — each
+  mapping's share truncated to kB. `/proc/pid/smaps_rollup` runs ONE `mss` over all mappings and
+  prints the same expression once. Every other figure psutil reads (`Private_*`, `Swap`) counts
+  whole pages, so its roll-up line IS the sum of the per-mapping lines. -/
+
+/-- a mapping together with its proportional share as the kernel keeps it (units of 2⁻¹² byte) -/
+structure FineMapping where
+  m : Mapping
+  fine : Nat
+  deriving Repr
+
+/-- replace the value printed for key `k` (the key list itself is untouched) -/
+def setVal (kv : List KV) (k : Bytes) (v : Nat) : List KV :=
+  kv.map fun e => if e.key == k then { e with val := v } else e
+
+/-- the mapping as `/proc/pid/smaps` shows it: `Pss:` is the fine share truncated to kB -/
+def FineMapping.shown (f : FineMapping) : Mapping :=
+  { f.m with kv := setVal f.m.kv bPss (f.fine / pssUnit) }
+
+def shownAll (fms : List FineMapping) : List Mapping := fms.map (·.shown)
+
+def fines (fms : List FineMapping) : List Nat := fms.map (·.fine)
+
+def renderSmapsFine (fms : List FineMapping) : Bytes := renderSmaps (shownAll fms)
+
+/-- field-wise kB sums of the keys the mappings print with a unit -/
+def rollupSums (ms : List Mapping) : List KV :=
+  (rollupKeysOf ms).map fun k => (⟨k, total ms k, true⟩ : KV)
+
+/-- the key lines of `/proc/pid/smaps_rollup` of the same process: the field-wise sums, except
+    `Pss`, which is the sum of the FINE shares truncated once -/
+def rollupKVsFine (fms : List FineMapping) : List KV :=
+  setVal (rollupSums (shownAll fms)) bPss (pssRolled (fines fms))
+
+def renderRollupFine (fms : List FineMapping) : Bytes :=
+  renderRollupRec ((shownAll fms).head?.map (·.lo) |>.getD 0) ((shownAll fms).getLast?.map (·.hi) |>.getD 0)
+    (rollupKVsFine fms)
+
+/-! ### histories of `memory_percent` / `virtual_memory()`, spec side
+
+  Written over the RECORDS of `/proc/meminfo` (never over its text, never with the model's
+  functions): the property's "100 · field / total physical memory", where — psutil caching the
+  total by design — "total physical memory" is the `MemTotal` psutil last read: by the latest
+  `virtual_memory()`, or by the first `memory_percent()` when none was made; a total of 0 counts
+  as not read. -/
+
+inductive SOp
+  | setMeminfo (ls : List KV)       -- `/proc/meminfo` now holds these records
+  | vm                              -- `psutil.virtual_memory()`
+  | pct (memtype : String)          -- `p.memory_percent(memtype)`
+  deriving Repr
+
+inductive SOut
+  | none
+  | total (t : Nat)                 -- `virtual_memory().total`
+  | pct (r : Rat)
+  | valueError                      -- unknown field name, or a total of 0
+  deriving DecidableEq
+
+/-- the total psutil works with: the one last read, unless nothing (or 0) was read — then the
+    `MemTotal` of the moment -/
+def totalInUse (last : Option Nat) (cur : Nat) : Nat :=
+  match last with
+  | some t => if t = 0 then cur else t
+  | none => cur
+
+/-- `val`: the promised value of every field name (`none`: not a field of `pfullmem`);
+    `cur`: the records `/proc/meminfo` holds now; `last`: the total last read -/
+def specHist (val : String → Option Nat) : List SOp → List KV → Option Nat → List SOut
+  | [], _, _ => []
+  | .setMeminfo ls :: ops, _, last => .none :: specHist val ops ls last
+  | .vm :: ops, cur, _ => .total (memTotal cur) :: specHist val ops cur (some (memTotal cur))
+  | .pct mt :: ops, cur, last =>
+    match val mt with
+    | none => .valueError :: specHist val ops cur last
+    | some v =>
+      (if 0 < totalInUse last (memTotal cur) then .pct (specPercent v (totalInUse last (memTotal cur) : Nat))
+        else .valueError) :: specHist val ops cur (some (totalInUse last (memTotal cur)))
 
 end Psutil.C13.Spec
